@@ -55,7 +55,9 @@ class CobaRandom:
         Returns:
             The generated random number in [`min`,`max`).
         """
-        return min+(max-min)*next(self._randu)
+        r = min+(max-min)*next(self._randu)
+        while r >= max > min: r = min+(max-min)*next(self._randu) #rounding can land on max so we redraw
+        return r
 
     def randoms(self, n:int, min:float=0, max:float=1) -> Sequence[float]:
         """Generate `n` uniform random numbers in [`min`,`max`).
@@ -79,6 +81,8 @@ class CobaRandom:
             out = map(diff.__mul__,out)
         if min != 0:
             out = map(min.__add__,out)
+        if min+diff*(1-2**-30) >= max > min:
+            out = filter(float(max).__gt__,out) #rounding can land on max so we drop such values
 
         return list(islice(out,n)) if n is not None else out
 
